@@ -157,7 +157,7 @@ int read_task_txt_file(struct uftrace_session_link *sess, char *dirname, char *s
 
 			// Get the execname
 			pos = strstr(line, "exename=");
-			if (pos == NULL)
+			if (pos == NULL || pos[8] != '"')
 				goto out;
 
 			exename = pos + 8 + 1; // skip double-quote
@@ -185,7 +185,7 @@ int read_task_txt_file(struct uftrace_session_link *sess, char *dirname, char *s
 				goto out;
 
 			pos = strstr(line, "libname=");
-			if (pos == NULL)
+			if (pos == NULL || pos[8] != '"')
 				goto out;
 
 			exename = pos + 8 + 1; // skip double-quote
